@@ -24,19 +24,27 @@ func (d *PathDecoder) bodySchemaCandidates(ctx context.Context, body *hclsyntax.
 
 	if schema.Extensions != nil {
 		// check if count attribute "extension" is enabled here
-		if schema.Extensions.Count {
+		if schema.Extensions.Count && strings.HasPrefix("count", string(prefix)) {
 			// check if count attribute is already declared, so we don't
 			// suggest a duplicate
 			if _, ok := body.Attributes["count"]; !ok {
+				if uint(count) >= d.maxCandidates {
+					return candidates
+				}
 				candidates.List = append(candidates.List, attributeSchemaToCandidate(ctx, "count", schemahelper.CountAttributeSchema(), editRng))
+				count++
 			}
 		}
 
-		if schema.Extensions.ForEach {
+		if schema.Extensions.ForEach && strings.HasPrefix("for_each", string(prefix)) {
 			// check if for_each attribute is already declared, so we don't
 			// suggest a duplicate
 			if _, present := body.Attributes["for_each"]; !present {
+				if uint(count) >= d.maxCandidates {
+					return candidates
+				}
 				candidates.List = append(candidates.List, attributeSchemaToCandidate(ctx, "for_each", schemahelper.ForEachAttributeSchema(), editRng))
+				count++
 			}
 		}
 	}
